@@ -59,6 +59,25 @@ class Injector:
             sys.settrace(old)
 
 
+class BystanderInjector(Injector):
+    """At the k-th line event inside the package another party gets the processor for one action (`action()`), then the
+    traced call goes on: a deterministic pre-emption point for a second caller thread whose whole turn is that action."""
+
+    def __init__(self, k: int, action):
+        super().__init__(None)
+        self.at = k
+        self.action = action
+
+    def _local(self, frame, event, arg):
+        if event == "line":
+            self.count += 1
+            if not self.fired and self.count == self.at:
+                self.fired = True
+                self.where = [os.path.basename(frame.f_code.co_filename), frame.f_lineno, frame.f_code.co_name]
+                self.action()
+        return self._local
+
+
 def count_lines(fn, *a, **kw) -> tuple[int, object, BaseException | None]:
     inj = Injector(None)
     try:
